@@ -609,10 +609,9 @@ def binary_replay(V, wd, tier, prop, ops):
     todo = [(o, op, var) for o in orders for (op, var) in ops]
     rng.shuffle(todo)
     exhaustive = len(todo) <= cap
-    for k, (o, op, var) in enumerate(todo[:cap]):
-        c = by_case[o["id"]]
+    def mkjob(jid, order, op, var):
         ls, rs = [], []
-        for g, ev in enumerate(o["order"]):
+        for g, ev in enumerate(order):
             el = {"k": ev["k"], "after": g}
             if ev["k"] == "I":
                 el["v"] = ev["v"]
@@ -625,9 +624,13 @@ def binary_replay(V, wd, tier, prop, ops):
         nodes = [{"id": "l", "op": "src", "kind": "script", "repl": "one", "scripts": [ls]},
                  {"id": "r", "op": "src", "kind": "script", "repl": "one", "scripts": [rs]},
                  node, {"id": "k", "op": "sink", "kind": "collect_vec", "in": ["j"]}]
+        return {"id": jid, "prog": {"nodes": nodes}, "cfg": {"mode": "local", "par": 1}, "batch": "single",
+                "trace": False, "gate": {"kind": "count_recv", "from_blocks": [0, 1]}, "hang_ms": 15000}
+
+    for k, (o, op, var) in enumerate(todo[:cap]):
+        c = by_case[o["id"]]
         jid = f"b{k}"
-        jobs.append({"id": jid, "prog": {"nodes": nodes}, "cfg": {"mode": "local", "par": 1}, "batch": "single",
-                     "trace": False, "gate": {"kind": "count_recv", "from_blocks": [0, 1]}, "hang_ms": 15000})
+        jobs.append(mkjob(jid, o["order"], op, var))
         meta[jid] = {"ev": "case", "id": jid, "op": op, "variant": var.get("variant", ""), "ml": 2, "mr": 2,
                      "left": c["left"], "right": c["right"], "order": o["order"], "var": var}
     results, _ = run_jobs(jobs, wd, timeout=1200)
@@ -650,6 +653,51 @@ def binary_replay(V, wd, tier, prop, ops):
     files = split_trace_files(recs, wd, "joincheck", max_events=600)
     viols, consumed, states, _ = validate_parallel("JoinCheck", files, wd)
     jb = {j["id"]: j for j in jobs}
+    # C05 "carry nothing over", decided by experiment: a run over several iterations gave a wrong result; every
+    # iteration of it is run again ALONE (same operator, same arrival order of that iteration).  If each of them is
+    # right on its own, the wrong result of the long run can only come from what an earlier iteration left behind.
+    res_of = {r["id"]: r["res"] for r in recs if r.get("ev") == "case"}
+    wrong = sorted({v["job"] for v in viols if v["kind"] != "carry_over" and len(meta[v["job"]]["left"]) >= 2})[:60]
+    if wrong:
+        iso, imeta = [], {}
+        for jid in wrong:
+            m = meta[jid]
+            seen = {"L": 0, "R": 0}
+            per = [[] for _ in m["left"]]
+            for ev in m["order"]:
+                if ev["k"] == "X":
+                    continue
+                per[seen[ev["side"]]].append(ev)
+                if ev["k"] == "R":
+                    seen[ev["side"]] += 1
+            for i, evs in enumerate(per):
+                o1 = evs + [{"side": "L", "k": "X", "v": 0}, {"side": "R", "k": "X", "v": 0}]
+                iid = f"{jid}_it{i}"
+                iso.append(mkjob(iid, o1, m["op"], m["var"]))
+                imeta[iid] = (jid, i)
+        wd2 = os.path.join(wd, "iso")
+        os.makedirs(wd2, exist_ok=True)
+        ires, _ = run_jobs(iso, wd2, timeout=900)
+        single = {}
+        for iid, r in ires.items():
+            if r.get("hang") or not jobsuite.job_ok(r):
+                continue
+            out = [s_["res"] for h in r["hosts"] for s_ in h["sinks"] if s_["res"] is not None]
+            single.setdefault(imeta[iid][0], {})[imeta[iid][1]] = out[0] if out else []
+        recs2 = []
+        for jid in wrong:
+            m = meta[jid]
+            if len(single.get(jid, {})) != len(m["left"]):
+                continue
+            rec = {k: m[k] for k in ("id", "op", "variant", "ml", "mr", "left", "right")}
+            rec.update({"ev": "case2", "res": res_of[jid], "single": [single[jid][i] for i in range(len(m["left"]))]})
+            recs2 += [rec, {"ev": "done", "id": jid}]
+        if recs2:
+            files2 = split_trace_files(recs2, wd2, "joincheck2", max_events=600)
+            viols2, _, states2, _ = validate_parallel("JoinCheck", files2, wd2)
+            viols += viols2
+            states += states2
+        V.coverage["iterations_rerun_alone"] = len(iso)
     for v in viols:
         if v["prop"] == prop:
             V.add_violation(v, replay={"job": jb.get(v["job"]), "order": meta[v["job"]]["order"]})
